@@ -256,6 +256,8 @@ class Env:
         n = self.ninv
         t = self.now()
         self.clock.advance(sc["dur"])
+        if sc.get("wallstep"):
+            vtime._real["sleep"](sc["wallstep"])    # the wall clock moves on; the monotonic one does not
         self.trace.append({"e": "invoke", "n": n, "t": t, "out": sc["out"], "k": sc["k"],
                            "ra": sc["ra"], "dur": sc["dur"], "t1": self.now()})
         out = sc["out"]
@@ -312,6 +314,13 @@ class Env:
             raise AssertionError(out)
         self.raised.append(exc)
         self.raised_n.append(n)
+        if self.flavours and out in ("exc", "excsame", "abort"):
+            # the operation fails inside a `with` block of a generator-based context manager
+            # (contextlib assigns __traceback__ on the exception object on its way out; not done for
+            # the library's frozen-dataclass RetryExhaustedError, which cannot take that assignment
+            # by design - see DESIGN.md, observations)
+            with _passthrough():
+                raise exc
         raise exc
 
     async def aop(self) -> Any:
@@ -760,6 +769,14 @@ def retry_kwargs(env: Env, cfg: dict, *, place: str = "call", atimeout: bool = F
     return ctor, call
 
 
+from contextlib import contextmanager as _contextmanager
+
+
+@_contextmanager
+def _passthrough():
+    yield
+
+
 class Falsy:
     """a callable object that is falsy and empty"""
 
@@ -921,7 +938,7 @@ def run_scenario(cfg: dict, events: list[dict], *, entry: str, perm=None, place:
                  force_mode: str | None = None, timeline: bool = False, atimeout: bool = False,
                  loop: bool = False, breaker_cfg: dict | None = None,
                  flavours: str | None = None, entry2: str | None = None,
-                 sinks: str | None = None) -> list[dict]:
+                 sinks: str | None = None, nosleeper: bool = False) -> list[dict]:
     """Execute the scenario through one entry point of the real library; returns the observed
     event list (same vocabulary as M's behaviours)."""
     is_async = entry.startswith(("Async", "async"))
@@ -931,6 +948,11 @@ def run_scenario(cfg: dict, events: list[dict], *, entry: str, perm=None, place:
     env.flavours = flavours
     env.single_sink = sinks
     ctor, call = retry_kwargs(env, cfg, place=place, atimeout=atimeout)
+    if nosleeper and not is_async:
+        # no sleeper anywhere: the library's default, time.sleep, must get the delay in one call
+        ctor["sleeper"] = None
+        call.pop("sleeper", None)
+        env.clock.on_default_sleep = env.sleeper
     if hooks:
         call.update(on_attempt_start=env.astart, on_attempt_end=env.aend)
     global LOOP_MODE
